@@ -104,6 +104,17 @@ structure ABind where
   first : Bool := false
   deriving Repr
 
+/-- the statements of a pen operation as the specification steps through them -/
+inductive SStep
+  | s (p : PenStep)
+  | freeze
+  | thaw
+  deriving Repr
+
+def regionOf (body : List PenStep) : List SStep := [.freeze] ++ body.map .s ++ [.thaw]
+
+def progOf (op : PenOp) : List SStep := if op.isRegion then regionOf op.body else op.body.map .s
+
 inductive Frame
   /-- an occurrence being delivered: bindings of the snapshot not yet reached, those already run here -/
   | occ (ev : Int) (wf : Bool) (pending : List Nat) (ran : List Nat) (claimed : Bool)
@@ -115,7 +126,7 @@ inductive Frame
   | bindw (ev : Int) (first : Bool) (flags : BFlags) (h : Nat)
   | nop
   /-- a pen operation in progress: the statements still to run (occurrences it delivers sit on top of it) -/
-  | prog (steps : List PenStep)
+  | prog (steps : List SStep)
   /-- a running handler -/
   | inv (slot h n fl : Nat) (acts : List Action) (next : Nat) (ret : Int)
   deriving Repr
@@ -192,31 +203,31 @@ def advance : Nat → S → S
     match s.stack with
     | .prog (step :: rest) :: below =>
       let p := s.pen
-      let emit (p' : PenSt) (rest' : List PenStep) : S :=
+      let emit (p' : PenSt) (rest' : List SStep) : S :=
         { s with pen := p', stack := .occ 1 false ((s.live.filter (·.ev == 1)).map (·.slot)) [] false :: .prog rest' :: below }
-      let go (p' : PenSt) (rest' : List PenStep) : S := advance fuel { s with pen := p', stack := .prog rest' :: below }
+      let go (p' : PenSt) (rest' : List SStep) : S := advance fuel { s with pen := p', stack := .prog rest' :: below }
       let changed (p' : PenSt) : S := if p'.freeze = 0 then emit p' rest else go { p' with changed := true } rest
       match step with
-      | .setBool v => changed { p with bold := some v }
-      | .setCol n => emit { p with fg := some n, rgb := none } rest
-      | .setRgb r => if p.fg.isSome then changed { p with rgb := some r } else go p rest
+      | .s (.setBool v) => changed { p with bold := some v }
+      | .s (.setCol n) => emit { p with fg := some n, rgb := none } rest
+      | .s (.setRgb r) => if p.fg.isSome then changed { p with rgb := some r } else go p rest
       | .freeze => go { p with freeze := p.freeze + 1 } rest
       | .thaw =>
         if p.freeze = 0 then go p rest
         else if p.freeze = 1 && p.changed then emit { p with freeze := 0, changed := false } rest
         else go { p with freeze := p.freeze - 1 } rest
-      | .copyAttrFg t => go p (copyAttrFgSteps t ++ rest)
-      | .loopFg t ow => if loopCopiesFg p t ow then go p (copyAttrFgSteps t ++ rest) else go p rest
-      | .loopBold t ow => if loopCopiesBold p t ow then changed { p with bold := some (t.bold.getD false) } else go p rest
+      | .s (.copyAttrFg t) => go p (regionOf (attrFgBody t) ++ rest)
+      | .s (.loopFg t ow) => if loopCopiesFg p t ow then go p (regionOf (attrFgBody t) ++ rest) else go p rest
+      | .s (.loopBold t ow) => if loopCopiesBold p t ow then changed { p with bold := some (t.bold.getD false) } else go p rest
     | _ => s
 
-def beginPen (s : S) (steps : List PenStep) : S :=
+def beginPen (s : S) (steps : List SStep) : S :=
   advance 64 { s with stack := .prog steps :: s.stack }
 
 def beginEmit (own : Owner) (s : S) (ev : Int) : S :=
   if own.canEmit ev then
     match own.penEmitFg with
-    | some n => beginPen s [.setCol n]
+    | some n => beginPen s [.s (.setCol n)]
     | none => { s with stack := .occ ev (own.wf ev) ((s.live.filter (·.ev == ev)).map (·.slot)) [] false :: s.stack }
   else { s with stack := .nop :: s.stack }
 
@@ -388,7 +399,7 @@ def stepTok (own : Owner) (beh : Behaviour) (s : S) (t : Tok) : Except String S 
           | .unbind k => .ok (beginUnbindSlot s k)
           | .unbindSelf => .ok (beginUnbindSlot s slot)
           | .emit ev => .ok (beginEmit own s ev)
-          | .pen op => .ok (beginPen s op.steps)
+          | .pen op => .ok (beginPen s (progOf op))
           | .destroy =>
             -- inside an emission of an owner whose emitters hold a reference the destruction waits for the end of
             -- the outermost emission; otherwise it happens here and now
@@ -467,7 +478,7 @@ def specBegin (own : Owner) (op : Op) (s : Spec.S) : Spec.S :=
   | .unbind k => Spec.beginUnbindSlot s k
   | .unbindId id => Spec.beginUnbindId s id
   | .emit ev => Spec.beginEmit own s ev
-  | .pen op => Spec.beginPen s op.steps
+  | .pen op => Spec.beginPen s (Spec.progOf op)
   | .destroy => Spec.beginDestroy s
 
 def step (d : DSt) (ts : List String) (impl : String) : DSt × String × String :=
